@@ -45,6 +45,9 @@ type resetSpec struct {
 	// ordered even on an unordered stream: ordered and unordered messages of one stream are
 	// queued when Close is called
 	MixedDCEP bool
+	// SlowReader: B's readers start only after this pause (the advertised window shrinks while
+	// the data waits: with a small receive buffer the sender ends up probing a closed window)
+	SlowReader time.Duration
 }
 
 type resetObs struct {
@@ -137,6 +140,9 @@ func resetCycle(m *Sim, spec *resetSpec, cycle int) bool {
 	var readers []*vsched.Thread
 	startReader := func(ep int, sid uint16, s *Stream, late bool) {
 		readers = append(readers, m.Go(fmt.Sprintf("c%d.read%d.%d", cycle, ep, sid), func() {
+			if spec.SlowReader > 0 && ep == 1 {
+				m.Sleep(spec.SlowReader)
+			}
 			if late {
 				// wait until the reset has been processed on this side (stream unregistered)
 				m.WaitUntil("reset-processed", 60*time.Second, func() bool { return s.readErr != nil })
@@ -345,6 +351,21 @@ func lens(mm map[uint16][]rmsg) map[uint16]int {
 func propC14(j *Job) {
 	modes := stdModes()
 	faults := faultSet{Drop: true, Dup: true, Late: true, Swap: true}
+	// blocking-write mode against a small, slowly drained receive buffer: the last message
+	// leaves as a window probe, the end-of-stream marker is alone in the queue behind it; the
+	// next incarnation of the stream (and every other writer) must still get its turn
+	for _, mode := range modes {
+		for _, sz := range [][]int{{1000, 1000}, {1000, 400, 1000}} {
+			a, b := withBase(mode.A, 1200, 0xFFFFFFFA, 4000), withBase(mode.B, 1200, 0xFFFFFFF0, 4000)
+			a.BlockWrite = true
+			b.RecvBuf = 1500
+			spec := &resetSpec{A: a, B: b, SIDs: []uint16{5}, Sizes: sz, Cycles: 2, Faults: faults, BackSizes: []int{12}, SlowReader: 300 * time.Millisecond}
+			j.Explore(fmt.Sprintf("R/%s/block-probe/m%d", mode.Name, len(sz)), resetScenario(spec), Budget{K: 0}, nil)
+			if j.capped() {
+				return
+			}
+		}
+	}
 	for _, mode := range modes {
 		mtu := uint32(100)
 		il := !mode.A.NoInterleave
